@@ -37,4 +37,35 @@ static inline spec_state verif_canon(const ascon_state_t *st)
     return s;
 }
 
+/* the inverse: store a canonical state into the backend representation
+ * (used only by specification stubs that stand in for L1 functions) */
+#if defined(ASCON_BACKEND_SLICED32)
+static inline uint32_t verif_even_bits(uint64_t x)
+{
+    x &= 0x5555555555555555ULL;
+    x = (x | (x >> 1)) & 0x3333333333333333ULL;
+    x = (x | (x >> 2)) & 0x0F0F0F0F0F0F0F0FULL;
+    x = (x | (x >> 4)) & 0x00FF00FF00FF00FFULL;
+    x = (x | (x >> 8)) & 0x0000FFFF0000FFFFULL;
+    x = (x | (x >> 16)) & 0x00000000FFFFFFFFULL;
+    return (uint32_t)x;
+}
+#endif
+static inline void verif_set_canon(ascon_state_t *st, spec_state s)
+{
+    unsigned i;
+    for (i = 0; i < 5; ++i) {
+#if defined(ASCON_BACKEND_SLICED32)
+        st->W[2 * i] = verif_even_bits(s.x[i]);
+        st->W[2 * i + 1] = verif_even_bits(s.x[i] >> 1);
+#elif defined(ASCON_BACKEND_SLICED64)
+        st->S[i] = s.x[i];
+#else
+        unsigned j;
+        for (j = 0; j < 8; ++j)
+            st->B[8 * i + j] = (uint8_t)(s.x[i] >> (56 - 8 * j));
+#endif
+    }
+}
+
 #endif
